@@ -109,6 +109,11 @@ CLAIMED = {
          'transferred and leaves on a short transfer; no reading loop can spin without read progress; failed opens and close hooks release everything on every path (no release skippable). '
          'Values under inconsistent tell/length answers, time bounds and non-corruption of earlier data are not decided.',
          'required-fact extraction on the I/O primitives + shared loop / ownership path rules (C03, C05, C16)'),
+ 'C12': ('DESIGN.md §4 C12',
+         'Writer and reader string tables agree per container (WAV LIST-INFO ids, AIFF text chunk ids, CAF info keys through the reader\'s hash) and every type written is restored; bext and cart '
+         'writer/reader field sequences (spec, field, width, reserved skip) are identical and the PEAK letter sequences agree; every AIFF text arm consumes the pad byte; every metadata setter tests '
+         'have_written and all nine write wrappers set it before transferring. Content-dependent survival of values is not decided.',
+         'switch/if arm-table extraction and cross-check; format-string field-sequence extraction; required-fact checks'),
 }
 REASONS = {}
 DEFAULT_REASON = 'check not built yet (work in progress); see DESIGN.md'
